@@ -52,6 +52,22 @@ def rescore(cfg, circuit, n_photon, n_emitter):
     return Infidelity(target).evaluate(st, circuit)
 
 
+def rescore_lib_path(cfg, circuit, n_photon, n_emitter):
+    """the metric as the SOLVER evaluates it when its target has become a stabilizer and the compiler returns a density
+    matrix (state converted with density_to_stabilizer inside Infidelity) - only used to name the cause of a mismatch"""
+    from graphiq.metrics import Infidelity
+    from engine import circuits as cz
+    g, _ = target_of(cfg)
+    try:
+        target = cz.target_state(g, "s")
+        comp = make_compiler(cfg["compiler"])
+        st = comp.compile(circuit.copy())
+        st.partial_trace(keep=list(range(n_photon)), dims=(n_photon + n_emitter) * [2])
+        return Infidelity(target).evaluate(st, circuit)
+    except Exception:
+        return None
+
+
 def run(cfg, full=True):
     import numpy as np
     from graphiq.metrics import Infidelity
@@ -79,10 +95,12 @@ def run(cfg, full=True):
             hof = []
             for s, c in self.hof:
                 if c is None:
-                    hof.append({"score": INF, "oid": 0, "fp": "", "rescore": INF})
+                    hof.append({"score": INF, "oid": 0, "fp": "", "rescore": INF, "rescore_lib": INF})
                 else:
                     hof.append({"score": fix(s), "oid": id(c) % 1_000_000_007, "fp": fingerprint(c),
-                                "rescore": fix(rescore(cfg, c, self.n_photon, self.n_emitter))})
+                                "rescore": fix(rescore(cfg, c, self.n_photon, self.n_emitter)),
+                                "rescore_lib": fix(rescore_lib_path(cfg, c, self.n_photon, self.n_emitter))
+                                if (cfg["solver"] == "hybrid" and cfg["compiler"] == "dm") else INF})
             events.append({"ev": "gen", "i": iteration, "pop": pop, "hof": hof})
 
     with warnings.catch_warnings():
